@@ -94,3 +94,53 @@ def leading_zero_x_scalars():
         if x >> 248 == 0:
             out.append(k)
     return out
+
+
+_CONF = {}
+_CONF_CASE = {}
+
+
+def confusables():
+    """Map ASCII char -> list of non-ASCII code points that turn into it under str.lower / upper / casefold /
+    NFKC / NFKD (e.g. U+212A KELVIN SIGN -> 'k', U+017F LONG S -> 's'/'S', fullwidth and mathematical letters/digits).
+    A decoder that normalises before validating accepts such strings; the specifications accept none of them."""
+    if _CONF:
+        return _CONF
+    import unicodedata
+    for cp in range(0x80, 0x30000):
+        if 0xD800 <= cp <= 0xDFFF:
+            continue
+        ch = chr(cp)
+        case_outs = {str.lower(ch), str.upper(ch), str.casefold(ch)}
+        outs = set(case_outs)
+        for form in ("NFKC", "NFKD"):
+            outs.add(unicodedata.normalize(form, ch))
+            outs.add(unicodedata.normalize(form, ch).lower())
+        for o in outs:
+            if len(o) == 1 and o.isascii() and o.isalnum():
+                _CONF.setdefault(o, []).append(ch)
+                if o in case_outs:
+                    _CONF_CASE.setdefault(o, []).append(ch)
+    return _CONF
+
+
+def confuse(rnd, s, positions=None):
+    """Replace 1..3 characters of s by confusables of THE SAME character (or of its other case); code points that map
+    by plain case conversion (KELVIN SIGN, LONG S, DOTLESS I ...) are preferred when one applies.
+    Returns (new string, n replaced) or (s, 0) if nothing applicable."""
+    conf = confusables()
+
+    def pool_of(c, table):
+        return table.get(c, []) + table.get(c.lower(), []) + table.get(c.upper(), [])
+    rng = list(positions if positions is not None else range(len(s)))
+    case_idx = [i for i in rng if pool_of(s[i], _CONF_CASE)]
+    idx = [i for i in rng if pool_of(s[i], conf)]
+    if not idx:
+        return s, 0
+    use_case = bool(case_idx) and rnd.random() < 0.6
+    cand = case_idx if use_case else idx
+    n = min(len(cand), rnd.choice([1, 1, 2, 3]))
+    out = list(s)
+    for i in rnd.sample(cand, n):
+        out[i] = rnd.choice(pool_of(s[i], _CONF_CASE if use_case else conf))
+    return "".join(out), n
